@@ -12,7 +12,7 @@ EXPLANATION = (
     "and sends an Err into every drained sender, and crosses the close of the write side so later calls fail instead of "
     "blocking; (write-failure-returns) a call waits for a response only on the Ok edge of its own write, and every receive-"
     "side failure (timeout, closed channel) is mapped to Err; (notify-closed-on-loss) the WebSocket fail_all_pending always "
-    "empties the notify slot, which ends the subscriber's stream; (loss-signal-ends-loop) in each response loop the edges on which the frame read reports an error, the stream ends, or (WebSocket) a frame is undecodable never lead back to another read - the only retry is io::ErrorKind::Interrupted on the blocking read - and decode_websocket_frame maps a peer Close frame to Err and skips nothing but Ping/Pong/raw frames; (pending-removed-on-abandon) in the blocking client every "
+    "empties the notify slot, which ends the subscriber's stream; (shutdown-wakes-reader) every TcpStream::shutdown in the blocking client (failed write, reader death, Drop) shuts both directions, which is what wakes the reader thread parked in read(); (loss-signal-ends-loop) in each response loop the edges on which the frame read reports an error, the stream ends, or (WebSocket) a frame is undecodable never lead back to another read - the only retry is io::ErrorKind::Interrupted on the blocking read - and decode_websocket_frame maps a peer Close frame to Err and skips nothing but Ping/Pong/raw frames; (pending-removed-on-abandon) in the blocking client every "
     "non-success arm of the wait and the write-failure path cross remove_pending(id); in the async and WebSocket clients "
     "the PendingRequestGuard is live (never moved or forgotten) across every later await and return, its Drop removes the "
     "key unless disarmed, and disarm happens only after a response was received. Late responses are discarded without "
@@ -103,6 +103,23 @@ def run(facts, R):
             takes = [(i, t) for i, t in tb.calls() if t["callee"]["name"] == "take" and "Option" in t["callee"]["path"]]
             okt = len(takes) == 1 and "notify_tx" in render(ts.op(takes[0][1]["args"][0]))
             R.check(okt, "notify-closed-on-loss", tb.path, "slot.take()", "take_notify_sender does not take() the notify_tx slot", tb.span)
+
+    # ---------------- shutdown-wakes-reader: the blocking client's reader thread is parked in read(); only shutting the
+    # *read* side down (Shutdown::Both) wakes it so that fail_all_pending runs; a half-close of the write side leaves the
+    # calls in flight waiting for a peer that may never close
+    n_sd = 0
+    for b in facts.bodies.values():
+        if not (b.path.startswith("client::") or b.path.startswith("<client::")):
+            continue
+        bs = Sym(b)
+        for i, t in b.calls():
+            if callee_matches(t["callee"], "std::net::TcpStream::shutdown") and len(t["args"]) == 2:
+                n_sd += 1
+                how = render(bs.op(t["args"][1]))
+                R.check(how.startswith("Shutdown::Both"), "shutdown-wakes-reader", b.path, "socket shut down in both directions",
+                        "the connection is shut down with %s: the reader thread stays blocked in read(), fail_all_pending does not run and calls in flight hang "
+                        "until the peer closes" % how, t.get("span"), how)
+    R.floor("shutdown-wakes-reader", n_sd, 4, "TcpStream::shutdown calls in the blocking client")
 
     # ---------------- write-failure-returns + pending-removed-on-abandon ---------------------------------
     # blocking client
